@@ -10,3 +10,5 @@ open Femio.C19
 #print axioms C19_eviction_refreshes
 #print axioms C19_lru_sizes_positive
 #print axioms C19_no_future_values
+#print axioms C19_stale_needs_stale_entry
+#print axioms C19_fresh_object_stays_fresh
